@@ -385,13 +385,6 @@ static std::vector<Mut> mutations() {
   for (const char *cl : {"abc", "", " ", "  ", "-1", "-2", "-5", "-0", "+5", "5x", "x5", "0x5", "1e3", "5 5", " 5", "5 ", "05", "\t5", "5\t", "٥", "2147483647", "2147483648", "-2147483648", "-2147483649",
                          "4294967295", "4294967296", "4294967301", "99999999999", "9223372036854775807", "18446744073709551615", "18446744073709551616", "99999999999999999999999999999999", "-", "+", ".", "0.5", "NaN", "0", "1", "4", "6"})
     v.push_back({std::string("content-length-value=") + esc(cl), req(M, " ", T, " ", V, E, H, E, CN, CS, cl, E, E, B)});
-  // hostile numeric values: every negative length from -1 to beyond the size of the head (a wrapped sum lands on every offset inside the head, on its end, and before
-  // its start), signs / zeros / blanks, and both signs around 2^31, 2^32, 2^63, 2^64
-  { size_t head = req(M, " ", T, " ", V, E, H, E, CN, CS, "-00", E, E, "").size();
-    for (size_t n = 1; n <= head + 4; n++) v.push_back({"content-length-negative=" + std::to_string(n), req(M, " ", T, " ", V, E, H, E, CN, CS, "-" + std::to_string(n), E, E, B)});
-    for (const char *cl : {"+0", "00", "-00", "000005", "+05", "- 5", "--5", "+-5", "-+5", "5-", " -5", "-5 ", "2147483643", "2147483652", "-2147483643", "-2147483652", "4294967291", "-4294967291", "-4294967295", "-4294967296", "-4294967301",
-                           "9223372036854775803", "9223372036854775813", "-9223372036854775803", "-9223372036854775808", "-9223372036854775813", "18446744073709551611", "18446744073709551621", "-18446744073709551611", "-18446744073709551615", "-18446744073709551616", "-18446744073709551621"})
-      v.push_back({std::string("content-length-hostile=") + esc(cl), req(M, " ", T, " ", V, E, H, E, CN, CS, cl, E, E, B)}); }
   v.push_back({"content-length-no-colon", req(M, " ", T, " ", V, E, H, E, CN, " ", CV, E, E, B)});
   v.push_back({"content-length-colon-no-space", req(M, " ", T, " ", V, E, H, E, CN, ":", CV, E, E, B)});
   v.push_back({"content-length-colon-no-value", req(M, " ", T, " ", V, E, H, E, CN, ":", "", E, E, B)});
@@ -449,6 +442,13 @@ static std::vector<Mut> mutations() {
   v.push_back({"all-ff", std::string(64, '\xff')});
   v.push_back({"spaces-only", std::string(40, ' ')});
   v.push_back({"spaces-then-crlf", std::string(40, ' ') + "\r\n"});
+  // hostile numeric values: every negative length from -1 to beyond the size of the head (a wrapped sum lands on every offset inside the head, on its end, and before
+  // its start), signs / zeros / blanks, and both signs around 2^31, 2^32, 2^63, 2^64
+  { size_t head = req(M, " ", T, " ", V, E, H, E, CN, CS, "-00", E, E, "").size();
+    for (size_t n = 1; n <= head + 4; n++) v.push_back({"content-length-negative=" + std::to_string(n), req(M, " ", T, " ", V, E, H, E, CN, CS, "-" + std::to_string(n), E, E, B)});
+    for (const char *cl : {"+0", "00", "-00", "000005", "+05", "- 5", "--5", "+-5", "-+5", "5-", " -5", "-5 ", "2147483643", "2147483652", "-2147483643", "-2147483652", "4294967291", "-4294967291", "-4294967295", "-4294967296", "-4294967301",
+                           "9223372036854775803", "9223372036854775813", "-9223372036854775803", "-9223372036854775808", "-9223372036854775813", "18446744073709551611", "18446744073709551621", "-18446744073709551611", "-18446744073709551615", "-18446744073709551616", "-18446744073709551621"})
+      v.push_back({std::string("content-length-hostile=") + esc(cl), req(M, " ", T, " ", V, E, H, E, CN, CS, cl, E, E, B)}); }
   return v;
 }
 
